@@ -25,6 +25,31 @@ type Pack struct {
 	Run  func(c *core.Ctx)
 }
 
+// Needs: the logical packages a pack reads (a build configuration under which one of them does not
+// type-check is skipped for that pack, with a note in the evidence).
+var Needs = map[string][]string{
+	"C01": {"optics", "hseq"},
+	"C02": {"optics", "hseq"},
+	"C03": {"hseq", "optics"},
+	"C04": {"optics"},
+	"C05": {"pipe"},
+	"C06": {"pipe"},
+	"C07": {"pipe", "pipe/fork"},
+	"C08": {"pipe"},
+	"C09": {"pipe", "pipe/fork"},
+	"C10": {"pipe", "pipe/fork"},
+	"C11": {"pipe"},
+	"C12": {"pipe"},
+	"C13": {"pipe"},
+	"C14": {"trait/seq"},
+	"C15": {"trait/pair"},
+	"C16": {"duct"},
+	"C17": {"pure/eq", "pure/ord", "pure/monoid", "pure/semigroup"},
+	"C18": {"internal/maplike/skiplist", "pure/ord"},
+	"C19": {"internal/seq", "internal/seq/list", "internal/seq/slice"},
+	"C20": {"internal/pipe"},
+}
+
 var Packs = map[string]*Pack{}
 
 func register(p *Pack) { Packs[p.ID] = p }
